@@ -44,6 +44,8 @@ class DocBuilder:
        foreign    probability that a name comes as a QualifiedName of a not-yet-registered namespace
        value_kinds list of value kinds (see Gen.value)
        repeat_id  probability of re-using an existing identifier
+       redefault  probability (per document) that some scope's default namespace is declared anew between two records
+       twins      probability (per attribute) of repeating an earlier URI-valued attribute with the other kind of value
        malformed  probability of a deliberately invalid argument (error branches)
        paths      which entry paths to use: subset of {'new_record','factory','conv'}
     """
@@ -53,12 +55,13 @@ class DocBuilder:
         self.w = w
         self.o = dict(clash=0.2, foreign=0.15, value_kinds=None, repeat_id=0.2, malformed=0.05,
                       paths=("new_record", "factory", "conv"), defaults=0.3, bare=True, fulluri=True,
-                      multi=0.2, anon=0.5, dup_formal=0.06, xml=False, subtypes=0.0, plain_binary=0.0,
+                      multi=0.2, anon=0.5, dup_formal=0.06, xml=False, subtypes=0.0, plain_binary=0.0, twins=0.0, redefault=0.0,
                       free_bundle=float(__import__("os").environ.get("VERIF_FREE_BUNDLE", "0.15")))
         self.o.update(opts)
         self.ids = {}        # scope -> list of identifiers used (QualifiedName objects as returned)
         self.elems = {}      # scope -> list of (handle, kind)
         self.recs = {}       # scope -> list of record handles
+        self.uri_vals = []   # (attribute name, URI-valued value) pairs handed out so far (see option `twins`)
 
     # ---- scopes
     def new_doc(self):
@@ -213,6 +216,20 @@ class DocBuilder:
                 else:
                     v = g.value(self.scope_namespaces(c), self.o["value_kinds"])
                 out.append((name, v))
+                if self.o["twins"] and not is_label:
+                    if isinstance(v, Identifier):
+                        self.uri_vals.append((name, v))
+            if self.o["twins"] and self.uri_vals and g.chance(self.o["twins"]):
+                # one IRI under one attribute as two kinds of value (qualified name / xsd:anyURI), on this record or on
+                # another statement of the same identifier: `==` between the two is true, yet they are different values
+                n2, v2 = g.choice(self.uri_vals[-6:])
+                if isinstance(v2, QualifiedName):
+                    out.append((n2, Identifier(v2.uri)))
+                else:
+                    nss = [ns for ns in self.scope_namespaces(c) if v2.uri.startswith(ns.uri) and len(v2.uri) > len(ns.uri)]
+                    if nss:
+                        ns = g.choice(nss)
+                        out.append((n2, QualifiedName(ns, v2.uri[len(ns.uri):])))
         return out
 
     def formal_args(self, c, kind, mask_p=0.6):
@@ -340,6 +357,30 @@ class DocBuilder:
             w.new_record(c, "Generation", None, [("prov:entity", e), ("prov:activity", a)])
         return bh
 
+    def cross_kind_cluster(self, c):
+        """one identifier used by records of two kinds, each kind stated twice or more (two groups that unified() merges
+        separately under one identifier): element kinds, or two relation kinds between elements the scope knows"""
+        g, w = self.g, self.w
+        ident = self.ident(c) if (self.ids.get(c) and g.chance(0.5)) else self.fresh_name(c, allow_repr=False)
+        if g.chance(0.5) or len(self.elems[c]) < 1:
+            kinds = g.rng.sample(ELEMENT_KINDS, 2)
+        else:
+            kinds = g.rng.sample(["Generation", "Usage", "Invalidation", "Start", "End", "Attribution", "Association",
+                                  "Derivation", "Influence", "Communication", "Delegation"], 2)
+        plan = [kinds[0], kinds[1], kinds[0], kinds[1]] + ([g.choice(kinds)] if g.chance(0.3) else [])
+        if g.chance(0.5):
+            g.rng.shuffle(plan)
+        made = 0
+        for k in plan:
+            attrs = []
+            if k not in ELEMENT_KINDS:
+                args = self.formal_args(c, k, mask_p=0.3)
+                attrs = [(PROV[l], a) for l, a in zip(FORMALS[k], args) if a is not None and l not in TIME_ATTRS][:2]
+            h, _e = w.new_record(c, k, ident, attrs + self.other_attrs(c, g.rng.randint(0, 2)))
+            self._book(c, h, k)
+            made += h is not None
+        return made
+
     def many_defaults(self, d):
         """several default namespaces meet: the document has one, two bundles have two others, each names records by bare
         local names in its own default namespace (what flattened() / update() / unified() must keep apart by URI)"""
@@ -417,7 +458,13 @@ class DocBuilder:
             if b:
                 scopes.append(b)
         n = g.rng.randint(1, 8) if n_records is None else n_records
-        for _ in range(n):
+        turn = g.rng.randrange(n) if (self.o["redefault"] and g.chance(self.o["redefault"])) else None
+        for i in range(n):
+            if i == turn:
+                # the default namespace is declared anew half way: names stated before keep the namespace they were given in
+                c = g.choice(scopes)
+                cur = self.w.conts[c].get_default_namespace()
+                self.w.set_default(c, g.choice([u for u in DEFAULT_URIS if cur is None or u != cur.uri]))
             self.add_record(g.choice(scopes))
         return d, scopes
 
